@@ -66,6 +66,7 @@ type H struct {
 	snapFailed    bool // a snapshot install failed after its first chunk and no NewTerm has stored the term since
 	termLost      bool // ... and the node was restarted in that state
 	kvf0          *capKvFactory
+	racing        bool // a handler may outlive the request that started it (parked handler, stream closed by another request)
 	reported      map[int64][2]int64 // head reported in the NewTerm response, by term
 	ackedIn       map[int64]int64    // highest offset acknowledged on a stream of the term
 	hasReported   map[int64]bool
@@ -394,9 +395,9 @@ func (h *H) newTermRecord(t int64, resp *proto.NewTermResponse, err error) {
 		}
 		if t < h.fencedTerm {
 			// "after a node has answered a new-term request for term T it never again accepts ... a term lower than T"
-			if h.termLost {
+			if h.termLost || h.snapFailed {
 				h.violate("newterm:older-term-accepted-after-failed-snapshot-and-restart", fmt.Sprintf(
-					"NewTerm(%d) answered OK after NewTerm(%d): a snapshot install failed after its first chunk (DB directory emptied, stored term gone) and the node restarted", t, h.fencedTerm))
+					"NewTerm(%d) answered OK after NewTerm(%d): a snapshot install failed after its first chunk (DB directory emptied, stored term gone) and the node restarted or re-created its controller", t, h.fencedTerm))
 			} else {
 				h.violate("newterm:older-term-accepted-after-fence", fmt.Sprintf("NewTerm(%d) answered OK after NewTerm(%d) had been answered", t, h.fencedTerm))
 			}
